@@ -514,7 +514,14 @@ func (r *simRun) clientEvent(ci int, data []byte) {
 			q.local = true
 			// slots visited before the failing one only matter when they dialled a new connection
 			var vs []string
-			for _, nb := range r.backends[nb0:] {
+			usedByAccepted := map[int]bool{}
+			for _, e := range r.enq[enq0:] {
+				usedByAccepted[e.backend] = true
+			}
+			for bi, nb := range r.backends[nb0:] {
+				if usedByAccepted[nb0+bi] {
+					continue // dialled for a request that was accepted in this event
+				}
 				for _, k := range q.keys {
 					s := int(hashkit.Hash(string(k)))
 					m, sl, _ := r.topo.owner(s)
